@@ -366,6 +366,24 @@ func (u *TCPUpstream) Shutdown() {
 // DialTCP opens a tunnelled TCP connection to endpoint through node n and
 // reads the stamp line.
 func DialTCP(n *Node, endpoint, token string, timeout time.Duration) (net.Conn, string, error) {
+	return DialTCPPre(n, endpoint, token, timeout, nil)
+}
+
+// TunnelHTTPError: the first bytes that came back through a TCP tunnel were an
+// HTTP status line: the tunnel's bytes were interpreted by an HTTP server, not
+// delivered to a TCP upstream (which always speaks the stamp line first).
+type TunnelHTTPError struct {
+	StatusLine string
+	Stamp      string // X-Stamp of the HTTP upstream that answered, if any
+}
+
+func (e *TunnelHTTPError) Error() string {
+	return fmt.Sprintf("the TCP tunnel was answered by an HTTP server: %q (X-Stamp %q)", e.StatusLine, e.Stamp)
+}
+
+// DialTCPPre is DialTCP with a preamble the client writes immediately after the
+// tunnel is open, before reading anything (a client-speaks-first protocol).
+func DialTCPPre(n *Node, endpoint, token string, timeout time.Duration, pre []byte) (net.Conn, string, error) {
 	u, _ := url.Parse("http://" + n.ProxyAddr())
 	d := &client.Dialer{URL: u, Token: token}
 	ctx, cancel := context.WithTimeout(context.Background(), timeout)
@@ -373,6 +391,14 @@ func DialTCP(n *Node, endpoint, token string, timeout time.Duration) (net.Conn, 
 	c, err := d.Dial(ctx, endpoint)
 	if err != nil {
 		return nil, "", err
+	}
+	if len(pre) > 0 {
+		_ = c.SetWriteDeadline(time.Now().Add(timeout))
+		if _, err := c.Write(pre); err != nil {
+			c.Close()
+			return nil, "", fmt.Errorf("reading stamp: preamble write: %w", err)
+		}
+		_ = c.SetWriteDeadline(time.Time{})
 	}
 	_ = c.SetReadDeadline(time.Now().Add(timeout))
 	var line []byte
@@ -390,6 +416,21 @@ func DialTCP(n *Node, endpoint, token string, timeout time.Duration) (net.Conn, 
 			c.Close()
 			return nil, "", fmt.Errorf("no stamp line")
 		}
+	}
+	if strings.HasPrefix(string(line), "HTTP/") {
+		te := &TunnelHTTPError{StatusLine: strings.TrimSpace(string(line))}
+		br := bufio.NewReader(c)
+		for i := 0; i < 100; i++ {
+			h, err := br.ReadString('\n')
+			if err != nil || strings.TrimSpace(h) == "" {
+				break
+			}
+			if k, v, ok := strings.Cut(h, ":"); ok && strings.EqualFold(strings.TrimSpace(k), "X-Stamp") {
+				te.Stamp = strings.TrimSpace(v)
+			}
+		}
+		c.Close()
+		return nil, te.Stamp, te
 	}
 	_ = c.SetReadDeadline(time.Time{})
 	return c, strings.TrimPrefix(string(line), "STAMP "), nil
